@@ -142,7 +142,7 @@ const WELLFORMED: [&str; 10] = [
 
 pub fn bounds(tier: Tier) -> Value {
     match tier {
-        Tier::Quick => json!({"text_len_12chars": 6, "token_seq": 4, "planted_lines": 3}),
+        Tier::Quick => json!({"text_len_12chars": 7, "token_seq": 4, "planted_lines": 3}),
         Tier::Thorough => json!({"text_len_12chars": 8, "text_len_14chars": 7, "token_seq": 5, "planted_lines": 4}),
     }
 }
@@ -211,7 +211,7 @@ pub fn worker(w: &mut Worker) {
         }
     }
     // (a) all texts
-    let l12 = tier.pick(6usize, 8usize);
+    let l12 = tier.pick(7usize, 8usize);
     for s in Strings::new(&SIGMA_Q[..], 0, l12) {
         if w.take() {
             run_text(w, &s.concat(), &[], "text");
